@@ -331,7 +331,88 @@ static std::string check_prng(const KV &c) {
     return "";
 }
 
+// ------------------------------------------------------------------ the masking-word generator (ascon-trng-mixer.c)
+// Same three oracles on the library's second consumer of the system source: deterministic in the bytes delivered,
+// every delivered byte influences all later words (also across a reseed), status of init / reseed as documented.
+extern "C" {
+#include "random/ascon-trng.h"
+}
+static rc::Gen<KV> gen_mixer() {
+    auto op = rc::gen::weightedElement<int>({{6, 0}, {6, 1}, {3, 2}, {1, 3}});     // 0 generate_32, 1 generate_64, 2 reseed, 3 free + init
+    auto status = rc::gen::container<Bytes>(12, rc::gen::weightedElement<uint8_t>({{6, 1}, {1, 0}, {1, 2}}));
+    return rc::gen::map(rc::gen::tuple(rc::gen::container<std::vector<int>>(op), genBytesN(12 * 32), status, rc::gen::arbitrary<uint32_t>()),
+                        [](std::tuple<std::vector<int>, Bytes, Bytes, uint32_t> t) {
+        KV c; std::vector<uint64_t> ops(std::get<0>(t).begin(), std::get<0>(t).end());
+        c["ops"] = numlist(ops); c["tape"] = hex(std::get<1>(t)); c["status"] = hex(std::get<2>(t)); c["flip"] = num(std::get<3>(t)); return c; });
+}
+static bool classify_mixer(const KV &c, std::vector<std::string> &tags) {
+    std::vector<uint64_t> ops = tolist(c, "ops");
+    bool reseed_then_words = false, seen = false;
+    for (uint64_t o : ops) { if (o == 2) seen = true; else if (seen && o <= 1) reseed_then_words = true; }
+    if (reseed_then_words) tags.push_back("words-after-a-reseed");
+    return ops.size() >= 3;
+}
+struct MixTrace { std::vector<Bytes> out; std::vector<int> status; std::vector<unsigned> call; int init_status; std::string error; };
+static MixTrace run_mixer(const std::vector<uint64_t> &ops, const Bytes &tape, const Bytes &status) {
+    MixTrace tr;
+    tape_sys_set(tape.data(), tape.size(), status.data(), status.size());
+    auto healthy = [&](unsigned call) { return call >= status.size() || status[call] == 1; };
+    ascon_trng_state_t st;
+    memset(&st, 0xA5, sizeof st);
+    tr.init_status = ascon_trng_init(&st);
+    if ((tr.init_status != 0) != healthy(0)) tr.error = "ascon_trng_init returned " + std::to_string(tr.init_status) + " with a " + (healthy(0) ? "healthy" : "failed") + " source";
+    for (uint64_t o : ops) {
+        unsigned c0 = tape_sys_calls();
+        Bytes b;
+        int rc = -99;
+        switch (o) {
+        case 0: { uint32_t v = ascon_trng_generate_32(&st); b.assign((uint8_t *)&v, (uint8_t *)&v + 4); break; }
+        case 1: { uint64_t v = ascon_trng_generate_64(&st); b.assign((uint8_t *)&v, (uint8_t *)&v + 8); break; }
+        case 2: rc = ascon_trng_reseed(&st);
+                if (tr.error.empty() && tape_sys_calls() != c0 + 1) tr.error = "ascon_trng_reseed made " + num(tape_sys_calls() - c0) + " system-source calls";
+                else if (tr.error.empty() && (rc != 0) != healthy(c0)) tr.error = "ascon_trng_reseed returned " + std::to_string(rc) + " with a " + (healthy(c0) ? "healthy" : "failed") + " source";
+                break;
+        default: ascon_trng_free(&st); rc = ascon_trng_init(&st);
+                if (tr.error.empty() && (rc != 0) != healthy(c0)) tr.error = "ascon_trng_init returned " + std::to_string(rc) + " with a " + (healthy(c0) ? "healthy" : "failed") + " source";
+                break;
+        }
+        tr.out.push_back(b); tr.status.push_back(rc); tr.call.push_back(c0);
+    }
+    ascon_trng_free(&st);
+    return tr;
+}
+static std::string check_mixer(const KV &c) {
+    std::vector<uint64_t> ops = tolist(c, "ops");
+    Bytes tape = tobytes(c, "tape"), status = tobytes(c, "status");
+    uint64_t flip = tonum(c, "flip");
+    MixTrace a = run_mixer(ops, tape, status);
+    if (!a.error.empty()) return a.error;
+    MixTrace b = run_mixer(ops, tape, status);
+    if (a.out != b.out || a.status != b.status) return "the masking-word generator is not a deterministic function of the system bytes";
+    // flip one bit of the seed delivered by a call that hands out bytes (status 1 or 2); the first call is the initial seed
+    unsigned ncalls = 1;
+    for (uint64_t o : ops) if (o >= 2) ++ncalls;
+    std::vector<unsigned> good;
+    for (unsigned j = 0; j < ncalls && (j + 1) * 32 <= tape.size(); ++j) if (j >= status.size() || status[j] != 0) good.push_back(j);
+    if (good.empty()) return "";
+    unsigned j = good[(flip >> 1) % good.size()];
+    Bytes tape3 = tape;
+    uint64_t bit = (flip >> 8) % 256;
+    tape3[j * 32 + bit / 8] ^= (uint8_t)(1u << (bit % 8));
+    MixTrace d = run_mixer(ops, tape3, status);
+    // words produced after call j and before the next free + init must differ (taken together, >= 16 bytes)
+    Bytes wa, wd;
+    unsigned call = 0;
+    bool live = j == 0;
+    for (size_t i = 0; i < ops.size(); ++i) {
+        if (ops[i] >= 2) { ++call; if (call == j) live = true; else if (ops[i] == 3 && live && call > j) break; }
+        if (live && ops[i] <= 1) { wa.insert(wa.end(), a.out[i].begin(), a.out[i].end()); wd.insert(wd.end(), d.out[i].begin(), d.out[i].end()); }
+    }
+    if (wa.size() >= 16 && wa == wd) return num(wa.size()) + " bytes of masking words are unchanged after flipping one bit of the system bytes delivered at call #" + num(j) + " (" + (j == 0 ? "the initial seed" : "a reseed or re-initialisation") + "; later reseeds must not discard earlier entropy)";
+    return "";
+}
+
 int main(int argc, char **argv) {
-    std::vector<Prop> props = {{"c15_prng", gen_prng, check_prng, classify_prng}};
+    std::vector<Prop> props = {{"c15_prng", gen_prng, check_prng, classify_prng}, {"c15_mixer", gen_mixer, check_mixer, classify_mixer}};
     return harness_main(argc, argv, props);
 }
